@@ -4,11 +4,12 @@
    The extracted model is run against the real containers on every ./check (T-cor). *)
 From Coq Require Import ZArith List Bool.
 From MomoCommon Require Import GenPrelude.
-From C14 Require Import PropagationModel Model Proofs Bodies BodiesProofs Crew GenProofs GenProofs2 GenProofs3 GenProofs4.
+From C14 Require Import PropagationModel Model Proofs Bodies BodiesProofs Crew GenProofs GenProofs2 GenProofs3 GenProofs4 GenProofs5 GenProofs6.
 From C14 Require Gen_TreeSet Gen_HashSet Gen_HashMultiMap Gen_DataTable Gen_SetCrew Gen_CrewContract.
 From C14 Require Gen_SetCrew2 Gen_SetCrewInl Gen_TreeSet2 Gen_HashSet2 Gen_DataTable2 Gen_MemPool Gen_MemPoolData Gen_MergeToFacts.
 From C14 Require Gen_TreeSet3 Gen_HashSet3 Gen_TableCrew Gen_DataTable3 Gen_HashMultiMap2 Gen_AssignShapes Gen_StdishDecisions.
-From C14 Require Gen_PvAssignTable Gen_CtorCatch.
+From C14 Require Gen_PvAssignTable Gen_CtorCatch Gen_ArrayData.
+From C14 Require Pack Gen_ValueCrew Gen_HashMap3 Gen_HashMultiMap3.
 Import ListNotations.
 Local Open Scope Z_scope.
 
@@ -816,3 +817,95 @@ Theorem C14_gen_hash_destroy :
   (forall cnt cap bk, bk <> 0 -> Gen_HashSet.pvDestroy true cnt cap bk = GenPrelude.Stuck).
 Proof. exact gen_hash_destroy. Qed.
 Print Assumptions C14_gen_hash_destroy.
+
+(* ---- (15) round 10: Array::Data generated end to end ---------------------------------------------------------------------- *)
+(* operator=(Data&&): for distinct objects the old storage (if any) is returned through the OLD manager of *this, only then *this
+   takes the source's manager, items, count and capacity, and the source keeps no storage; for the same object nothing happens
+   (mgr / data_mgr = the manager base sub-objects, freed_via = ghost: the manager the storage was returned through) *)
+Theorem C14_gen_array_move_assign :
+  forall m i n c dm di dn dc fv,
+    Gen_ArrayData.MoveAssign false m i n c dm di dn dc fv = (dm, di, dn, dc, 0, 0, 0, if Z.gtb c 0 then m else fv) /\
+    Gen_ArrayData.MoveAssign true m i n c dm di dn dc fv = (m, i, n, c, di, dn, dc, fv).
+Proof. exact gen_array_move_assign. Qed.
+Print Assumptions C14_gen_array_move_assign.
+
+Theorem C14_gen_array_move_ctor :
+  forall m i n c dm di dn dc fv, Gen_ArrayData.MoveCtor m i n c dm di dn dc fv = (dm, di, dn, dc, 0, 0, 0).
+Proof. exact gen_array_move_ctor. Qed.
+Print Assumptions C14_gen_array_move_ctor.
+
+Theorem C14_gen_array_clear :
+  forall m i n c dm di dn dc fv, Gen_ArrayData.Clear m i n c dm di dn dc fv = (0, 0, 0, if Z.gtb c 0 then m else fv).
+Proof. exact gen_array_clear. Qed.
+Print Assumptions C14_gen_array_clear.
+
+(* Array::Swap = std::swap of the Data members = generated move constructor + two generated move assignments: managers and
+   storage are exchanged exactly and NOTHING is deallocated *)
+Theorem C14_gen_array_swap :
+  forall am ai an ac bm bi bn bc fv,
+    array_swap_composed (am, ai, an, ac) (bm, bi, bn, bc) fv = ((bm, bi, bn, bc), (am, ai, an, ac), fv).
+Proof. exact gen_array_swap. Qed.
+Print Assumptions C14_gen_array_swap.
+
+(* the hand model's arr_move_assign agrees with the generated operator= on the manager, the storage and the manager the old
+   block is released through *)
+Theorem C14_arr_model_refines_generated :
+  forall assign dst src w, assign_takes_source assign -> arr_wf dst -> arr_wf src ->
+    exists d s' w', arr_move_assign assign dst src w = Ok (d, s') w' /\
+      let '(gm, _, _, gc, _, _, gsc, gfv) :=
+        Gen_ArrayData.MoveAssign false (amgr dst) (capz dst) 0 (capz dst) (amgr src) (capz src) 0 (capz src) (-1) in
+      amgr d = gm /\ capz d = gc /\ capz s' = gsc /\
+      (gfv = if Z.gtb (capz dst) 0 then amgr dst else -1).
+Proof. exact arr_model_refines_generated. Qed.
+Print Assumptions C14_arr_model_refines_generated.
+
+(* ------------------------------------------------------------------------------------------------------------------ *)
+(* Round 10: HashMultiMap(HashMultiMap&&) generated end to end -- HashMultiMap -> HashMap -> HashSet -> SetCrew and ValueCrew
+   (the HashSet member object travels as one packed value, Pack.v contains the packing only) *)
+Theorem C14_gen_valuecrew :
+  (forall a b, Gen_ValueCrew.Swap a b = (b, a)) /\
+  (forall junk s, Gen_ValueCrew.MoveCtor junk s = (s, 0)) /\
+  (forall d other, Gen_ValueCrew.IsNull d other = Z.eqb d 0).
+Proof. exact gen_valuecrew. Qed.
+Print Assumptions C14_gen_valuecrew.
+
+(* the target takes the hash map, the value count and the value crew; the source keeps nothing *)
+Theorem C14_gen_multi_move_ctor :
+  forall junk jn jc h n v,
+    Gen_HashMultiMap3.MoveCtor junk jn jc h n v =
+      (h, n, v, fst (fst moved_from_multi), snd (fst moved_from_multi), snd moved_from_multi).
+Proof. exact gen_multi_move_ctor. Qed.
+Print Assumptions C14_gen_multi_move_ctor.
+
+Theorem C14_gen_multi_moved_from_then_clear :
+  forall junk jn jc h n v,
+    let '(_, _, _, _, sn, sv) := Gen_HashMultiMap3.MoveCtor junk jn jc h n v in
+    Gen_HashMultiMap.Clear (Gen_ValueCrew.IsNull sv 0) sn = GenPrelude.Ok (tt, sn).
+Proof. exact gen_multi_moved_from_then_clear. Qed.
+Print Assumptions C14_gen_multi_moved_from_then_clear.
+
+(* operator=(HashMultiMap&&) composed of the generated move constructor and the generated Swap *)
+Theorem C14_gen_multi_move_assign :
+  forall this src,
+    let '(tmp, this', src') := multi_move_assign this src in
+    this' = src /\ src' = moved_from_multi /\ tmp = this.
+Proof. exact gen_multi_move_assign. Qed.
+Print Assumptions C14_gen_multi_move_assign.
+
+(* copy assignment = copy (any result: the copy constructor's successful path is not generated), then the generated Swap *)
+Theorem C14_gen_copy_assign_compositions :
+  (forall cc cn cr cp tc tn tr tp,
+     let '(mc, mn, mr, mp, tc', tn', tr', tp') := Gen_TreeSet2.Swap cc cn cr cp tc tn tr tp in
+     (tc', tn', tr', tp') = (cc, cn, cr, cp) /\ (mc, mn, mr, mp) = (tc, tn, tr, tp) /\
+     ((tc <> 0 \/ (tr = 0 /\ tp = 0)) -> Gen_TreeSet.pvDestroy (Gen_SetCrew.pvIsNull mc) mn mr mp = GenPrelude.Ok tt)) /\
+  (forall cc cn ck cb tc tn tk tb,
+     let '(mc, mn, mk, mb, tc', tn', tk', tb') := Gen_HashSet2.Swap cc cn ck cb tc tn tk tb in
+     (tc', tn', tk', tb') = (cc, cn, ck, cb) /\ (mc, mn, mk, mb) = (tc, tn, tk, tb)) /\
+  (forall cc cr cp ci tc tr tp ti,
+     let '(mc, mr, mp, mi, tc', tr', tp', ti') := Gen_DataTable2.Swap cc cr cp ci tc tr tp ti in
+     (tc', tr', tp', ti') = (cc, cr, cp, ci) /\ (mc, mr, mp, mi) = (tc, tr, tp, ti)) /\
+  (forall ch cn cv th tn tv,
+     let '(mh, mn, mv, th', tn', tv') := Gen_HashMultiMap2.Swap ch cn cv th tn tv in
+     (th', tn', tv') = (ch, cn, cv) /\ (mh, mn, mv) = (th, tn, tv)).
+Proof. exact gen_copy_assign_compositions. Qed.
+Print Assumptions C14_gen_copy_assign_compositions.
